@@ -156,6 +156,13 @@ func (p Proxy) ServeHTTP(w http.ResponseWriter, r *http.Request) (int, error) {
 		}
 	}
 
+	// The director and the header rules rewrite outreq in place. If the
+	// request may be retried, remember its URL and headers so that every
+	// attempt starts from the request as it is now instead of from what
+	// the previous attempt made of it.
+	retriable := upstream.GetTryDuration() != 0
+	origURL, origHeader := *outreq.URL, outreq.Header
+
 	// The keepRetrying function will return true if we should
 	// loop and try to select another host, or false if we
 	// should break and stop retrying.
@@ -193,6 +200,13 @@ func (p Proxy) ServeHTTP(w http.ResponseWriter, r *http.Request) (int, error) {
 		}
 
 		proxy := host.ReverseProxy
+
+		if retriable {
+			attemptURL := origURL
+			outreq.URL = &attemptURL
+			outreq.Header = make(http.Header, len(origHeader))
+			copyHeader(outreq.Header, origHeader)
+		}
 
 		// a backend's name may contain more than just the host,
 		// so we parse it as a URL to try to isolate the host.
